@@ -364,6 +364,14 @@ func checkC15(c *Check) {
 				}
 			}
 		}
+		if strings.Contains(fn, "/jws.") && !strings.HasSuffix(fn, ").Sign") {
+			// likewise for JWS: whatever is split between Sign and its timestamp helper
+			for _, f := range discoverFormats(c) {
+				if f.name == "JWS" {
+					spg = c.skeleton(f.method("Sign"), fn)
+				}
+			}
+		}
 		if spg == nil {
 			continue
 		}
@@ -425,7 +433,17 @@ func checkC15(c *Check) {
 			})
 			c.noPathFrom(spg, "O-C15.4", "COSE: timestamp failures are TimestampErrors", "after the timestamp block failed only a TimestampError is returned", AnyOf(A("-IsNil("+call.Key()+"#1)"), AG("-IsNil("+strings.TrimSuffix(hk, "#0")+"#1)")), fails, nil)
 		default:
+			// the envelope being emitted: what Sign hands to json.Marshal
 			env := paramOfType(spg, "jws.jwsEnvelope")
+			for _, st := range spg.States {
+				for _, e := range st.Out {
+					for _, l := range e.Labels {
+						if l.Kind == "call" && l.T != nil && l.T.Name == "encoding/json.Marshal" && len(l.T.Args) == 1 {
+							env = l.T.Args[0].Key()
+						}
+					}
+				}
+			}
 			if env == "" {
 				env = "p0"
 			}
@@ -438,13 +456,10 @@ func checkC15(c *Check) {
 			st := isStoreOf(env+".Header.TimestampSignature", nil)
 			c.floor("JWS token stores", 1, len(edgeSources(spg, st)))
 			c.mustPass(spg, "O-C15.3", "JWS: token embedded only after success", "storing the timestamp token", edgeSources(spg, st), A("+IsNil("+call.Key()+"#1)"))
-			allTE := true
-			for _, o := range errorOrigins(spg, 0) {
-				if dt, k := dynType(o.Term); !k || dt != "*ncg/signature.TimestampError" {
-					allTE = false
-				}
-			}
-			c.add("O-C15.4", "JWS: timestamp failures are TimestampErrors", "every error of the JWS timestamp helper is a *TimestampError", allTE, "")
+			fails := returnsWhere(spg, func(s *PState) bool {
+				return !retNilErr(s, 1) && !retHasType(s, 1, "ncg/signature.TimestampError")
+			})
+			c.noPathFrom(spg, "O-C15.4", "JWS: timestamp failures are TimestampErrors", "after the timestamp block failed only a TimestampError is returned", AnyOf(A("-IsNil("+call.Key()+"#1)"), A("-IsNil("+dec+"#1)"), A("+Eq("+wantHash+", 0)")), fails, nil)
 		}
 	}
 	// the timestamp block precedes the commit of the inner message (C20.1): no failing return after the commit
